@@ -1,5 +1,6 @@
 use super::PublishMode;
 
+#[cfg_attr(feature = "verif", derive(Clone))]
 pub enum OutstandingRequest {
     ConnectionRequest {
         app_name: String,
